@@ -1214,7 +1214,57 @@ def rule_stream_param_untouched_(ctx: Ctx, rep: Report) -> None:
     sigcommon.rule_stream_param_untouched(ctx, rep, "C05.stream_param_untouched", ("btclib.",), 30)
 
 
+def rule_block_segwit_counts_every_tx(ctx: Ctx, rep: Report) -> None:
+    """C05.block_segwit_counts_every_tx: a block is serialized with its witnesses when
+    any transaction has one, the coinbase included -- its BIP141 nonce is a
+    witness, and in a block of legacy spends it is the only one.
+    `Block.is_segwit` walks `self.transactions` whole: skipping the coinbase
+    makes the p2p payload of such a block come back 36 bytes shorter."""
+    rule = "C05.block_segwit_counts_every_tx"
+    fi = ctx.func("btclib.block.block.Block.is_segwit")
+    gens = [g_ for n in own_nodes(fi.node) if isinstance(n, (ast.GeneratorExp, ast.ListComp)) for g_ in n.generators] + \
+           [n for n in own_nodes(fi.node) if isinstance(n, ast.For)]
+    if not gens:
+        rep.unknown(rule, "Block.is_segwit", fi.where(), "no loop over the transactions")
+        return
+    for g_ in gens:
+        it = g_.iter
+        ok = norm(it) == "self.transactions"
+        rep.ob(rule, f"Block.is_segwit:{norm(it)}", ok, fi.where(it), "every transaction is asked" if ok else f"`{norm(it)}` leaves transactions out: a block whose only witness is one of those is written stripped")
+    rep.floor(rule, 1)
+
+
+def rule_psbt_global_keys_written_once(ctx: Ctx, rep: Report) -> None:
+    """C05.psbt_global_keys_written_once: a psbt map holds each key once and the reader
+    refuses a duplicate: in `Psbt.serialize` no global key type is appended
+    twice on one path -- two call sites with the same `PSBT_GLOBAL_*`
+    constant lie in exclusive arms, or the psbt the library writes is one it
+    cannot read."""
+    rule = "C05.psbt_global_keys_written_once"
+    fi = ctx.func("btclib.psbt.psbt.Psbt.serialize")
+    g = ctx.cfg(fi)
+    sites: dict[str, list[ast.Call]] = {}
+    for c in own_nodes(fi.node):
+        if isinstance(c, ast.Call) and c.args and isinstance(c.args[0], ast.Name) and c.args[0].id.startswith("PSBT_GLOBAL_"):
+            sites.setdefault(c.args[0].id, []).append(c)
+    for k, cs in sorted(sites.items()):
+        bad = None
+        for a in cs:
+            for b in cs:
+                if a is b:
+                    continue
+                na, nb = g.nodes_containing(a), g.nodes_containing(b)
+                if na and nb and any(x in g.reachable(na[0]) for x in nb):
+                    bad = (a, b)
+        rep.ob(rule, f"Psbt.serialize:{k}", bad is None, fi.where(bad[1] if bad else cs[0]), "written once on every path" if bad is None else
+               f"`{k}` is appended at line {bad[0].lineno} and again at line {bad[1].lineno} on one path: the map has a duplicated key, which Psbt.parse refuses")
+    rep.floor(rule, 6)
+
+
 RULES = [
+    ("C05.block_segwit_counts_every_tx", rule_block_segwit_counts_every_tx),
+    ("C05.psbt_global_keys_written_once", rule_psbt_global_keys_written_once),
+
     ("C05.stream_param_untouched", rule_stream_param_untouched_),
 
     ("C05.ctor_args_in_order", rule_ctor_args_in_order_),
